@@ -74,3 +74,16 @@ Definition line_case_ok (c: list N * option (list lval)) : bool :=
   | None, None => true
   | _, _ => false
   end.
+
+(* ---------------------------------------------------------------- finite floats (round 4)
+   repr(float) of a finite float consists of digits, point, exponent letter and signs only (law of
+   CPython's float_repr_style 'short'; checked on every run for sampled and special floats).  Such
+   text is inert for the tokenizer; its value is read back by CPython's float parsing
+   (float(repr(x)) == x, checked per run in Python; not modelled in Coq). *)
+Definition float_char (c: N) : bool :=
+  ((48 <=? c) && (c <=? 57)) || (c =? 46) || (c =? 101) || (c =? 43) || (c =? 45).
+Definition float_text_ok (t: list N) : bool :=
+  match t with
+  | [] => false
+  | c :: _ => (((48 <=? c) && (c <=? 57)) || (c =? 45)) && forallb float_char t
+  end.
